@@ -232,13 +232,15 @@ def oracle_sort_result(g, res) -> str | None:
         return "sort_data_models does not terminate"
     if res[0] != "ok":
         return None
+    if has_self_base(g):
+        return "a model that names itself as base was accepted (self-inheritance must be reported as circular base classes)"
     _, _un, order, upd = res
     if len(set(ids)) == len(ids):
         if sorted(order) != sorted(ids):
             return f"output {order} is not a permutation of the input {ids}"
     pos = {p: k for k, p in enumerate(order)}
     by_id = {n["id"]: n for n in g}
-    if len(set(ids)) == len(ids) and not has_self_base(g):
+    if len(set(ids)) == len(ids):
         for n in g:
             for b in n["bases"]:
                 if b in by_id and pos[b] >= pos[n["id"]]:
@@ -340,6 +342,8 @@ def exhaustive_batches(max_nodes: int, size: int = 20000):
 def mechanism_of(why: str) -> str:
     if "terminate" in why:
         return "hang"
+    if "names itself as base" in why:
+        return "self_base_accepted"
     if "permutation" in why:
         return "lost_or_duplicated"
     if "base" in why:
@@ -492,11 +496,9 @@ def campaign_sort_models(ck: Check, n_cases: int) -> None:
         elif len(camp.samples) < 2 and len(ms) > 3 and impl != "none":
             camp.samples.append({"imported": imp, "models": ms, "result": impl})
         # the property's clause for this pass: it must not loop when every base is available
-        if impl == "none":
-            names = {nm for nm, _ in ms} | set(imp)
-            if all(b in names for _, bs in ms for b in bs) and not name_cycle(ms):
-                ck.fail({"oracle": "sort_models", "mechanism": "hang"}, {"imported": imp, "models": ms, "target": "__sort_models"},
-                        "__sort_models keeps swapping although every base class is defined in the module or imported and inheritance is acyclic")
+        if impl == "none" and not name_cycle(ms):
+            ck.fail({"oracle": "sort_models", "mechanism": "hang"}, {"imported": imp, "models": ms, "target": "__sort_models"},
+                    "__sort_models keeps swapping although inheritance among the classes of the module is acyclic")
     camp.wall_s = time.time() - t0
 
 
@@ -635,15 +637,14 @@ def campaign_e2e(ck: Check, n_graphs: int) -> None:
     for g in E2E_CORPUS:
         for kind in E2E_KINDS:
             e2e_case(ck, camp, g, kind, {})
+    for g in E2E_KEEP_ORDER_CORPUS + E2E_CORPUS[-2:]:
+        e2e_case(ck, camp, g, "pydantic_v2.BaseModel", {"keep_model_order": True})
     for i in range(n_graphs):
         g = random_graph(rng, 6)
         for n in g:  # definitions only: no dangling references
             n["bases"] = [b for b in n["bases"] if b < EXT]
             n["members"] = [m for m in n["members"] if m < EXT]
         opts = {"keep_model_order": True} if rng.chance(1, 4) else {}
-        if opts and has_self_base(g):
-            opts = {}  # known finding C11-selfbase-hang (its witness is re-run separately): every such case costs a watchdog period
-            camp.hit("keep_model_order dropped on self-base graph")
         for kind in E2E_KINDS if i % 2 == 0 else [rng.choice(E2E_KINDS)]:
             e2e_case(ck, camp, g, kind, opts)
     camp.wall_s = time.time() - t0
@@ -654,6 +655,7 @@ def campaign_e2e_modular(ck: Check, n_graphs: int) -> None:
     camp = ck.campaign("e2e modular + keep_model_order: terminates, every definition is one class in its module, bases first inside a module")
     t0 = time.time()
     rng = ck.rng.fork("e2e-mod")
+    todo = [([dict(n) for n in g], dict(p)) for g, p in MODULAR_CORPUS]
     for _ in range(n_graphs):
         g = random_graph(rng, 6)
         for n in g:
@@ -661,7 +663,8 @@ def campaign_e2e_modular(ck: Check, n_graphs: int) -> None:
             n["members"] = [m for m in n["members"] if m < EXT]
         if base_cycle(g):
             g = [dict(n, bases=[b for b in n["bases"] if b < n["id"]]) for n in g]
-        prefix = {n["id"]: rng.choice(["", "a", "b", "a.c", "pkg.d"]) for n in g}
+        todo.append((g, {n["id"]: rng.choice(["", "a", "b", "a.c", "pkg.d"]) for n in g}))
+    for g, prefix in todo:
         camp.evaluations += 1
         inp = {"graph": g, "prefix": prefix, "target": "e2e-modular"}
         cls = {"oracle": "e2e-modular", "base_cycle": False, "self_base": False}
@@ -704,6 +707,15 @@ E2E_CORPUS = [
     [node(0, (1,), ()), node(1, (0,), ())],  # D3 (repaired): must be a reported error, not a hang
     [node(2, (1, 0), ()), node(1, (0,), ()), node(0, (), (2,))],
     [node(3, (1, 2), ()), node(1, (0,), ()), node(2, (0,), ()), node(0, (), (3,))],  # diamond through a member cycle
+    [node(0, (0,), ())],  # repaired (4fca813): A: allOf[$ref A] must be a reported error, not `class A(A)`
+    [node(0, (1,), ()), node(1, (1,), (0,))],  # …also next to a member cycle
+]
+# repaired (4fca813): these looped for ever in __sort_models
+E2E_KEEP_ORDER_CORPUS = [
+    [node(0, (1,), ()), node(1, (0, 1), ())],
+]
+MODULAR_CORPUS = [
+    ([node(3, (2,), ()), node(2, (), (4,)), node(4, (2,), ()), node(0, (), (2,))], {3: "a.c", 2: "", 4: "a.c", 0: "a.c"}),
 ]
 
 
@@ -806,9 +818,8 @@ def replay(ck: Check, path: str) -> int:
         ms = [(nm, list(bs)) for nm, bs in inp["models"]]
         impl = run_real_sort_models(inp["imported"], ms, 60)
         print("__sort_models ->", impl)
-        names = {nm for nm, _ in ms} | set(inp["imported"])
-        if impl == "none" and all(b in names for _, bs in ms for b in bs) and not name_cycle(ms):
-            ck.fail({"oracle": "sort_models", "mechanism": "hang"}, inp, "__sort_models keeps swapping although every base class is available and inheritance is acyclic")
+        if impl == "none" and not name_cycle(ms):
+            ck.fail({"oracle": "sort_models", "mechanism": "hang"}, inp, "__sort_models keeps swapping although inheritance among the classes of the module is acyclic")
     for f in ck.failures:
         print("REPLAY-FAILS:", json.dumps(f.classification), f.observed[:300])
     if not ck.failures:
